@@ -364,6 +364,14 @@ def assoc_inst(ns_a, ns_b, id_a=1, id_b=1, note=None, host=None, with_b=True):
     return CIMInstance('TST_AB', props)
 
 
+def keychange_inst(ns):
+    """TST_A.id=1 with property id=2 (the path is set afterwards: CIMInstance keeps path keybindings in
+    step with key property values that are set while the path is there)"""
+    inst = CIMInstance('TST_A', [('s', 'm'), ('id', Uint32(2))])
+    inst.path = ipath('TST_A', 1, ns)
+    return inst
+
+
 def assoc_path(ns_a, ns_b, ns=None):
     return CIMInstanceName('TST_AB', {'a': ipath('TST_A', 1, ns_a), 'b': ipath('TST_B', 1, ns_b)},
                            namespace=ns)
@@ -1189,9 +1197,7 @@ def _single_cases():
                 CIMInstance('TST_Missing', {'s': 'm'}, path=ipath('TST_Missing', 1, ns))),
             [['schema0', ns]], v)
         add('ModifyInstance', 'key-change', 'conn.ModifyInstance(TST_A.id=1 with id=2, s="m" in %r)' % ns,
-            lambda c, ns=ns: c.ModifyInstance(
-                CIMInstance('TST_A', [('s', 'm'), ('id', Uint32(2))], path=ipath('TST_A', 1, ns))),
-            [['inst', ns, 'TST_A']], v)
+            lambda c, ns=ns: c.ModifyInstance(keychange_inst(ns)), [['inst', ns, 'TST_A']], v)
         add('ModifyInstance', 'type-mismatch', 'conn.ModifyInstance(TST_A.id=1 with s=Uint32(5) in %r)' % ns,
             lambda c, ns=ns: c.ModifyInstance(
                 CIMInstance('TST_A', {'s': Uint32(5)}, path=ipath('TST_A', 1, ns))),
